@@ -55,6 +55,10 @@ var routes = []struct{ name, setup, a, b string }{
 	{"method-returns-property", "class G { public $items = null; function get() { return $this->items; } } $g = new G(); $g->items = $a; $b = $g->get();", "$g->items", "$b"},
 	{"function-returns-property", "class G2 { public $items = null; } function getp($o) { return $o->items; } $g2 = new G2(); $g2->items = $a; $b = getp($g2);", "$g2->items", "$b"},
 	{"static-method-returns-static", "class G3 { public static $s = null; static function get() { return G3::$s; } } G3::$s = $a; $b = G3::get();", "G3::$s", "$b"},
+	// static properties and static locals hold values too
+	{"into-static-property", "class KS { public static $p = null; } KS::$p = $a;", "$a", "KS::$p"},
+	{"out-of-static-property", "class KS { public static $p = null; } KS::$p = $a; $b = KS::$p;", "KS::$p", "$b"},
+	{"through-static-local", "function sl($x) { static $s = null; if ($x !== null) { $s = $x; } return $s; } sl($a); $b = sl(null); $a2 = sl(null);", "$a2", "$b"},
 	// stores into another array by append and by string key
 	{"appended-into-array", "$c = []; $c[] = $a;", "$a", "$c[0]"},
 	{"string-key-into-array", "$c = [0]; $c[\"x\"] = $a;", "$a", "$c[\"x\"]"},
